@@ -193,7 +193,9 @@ def install(plan):
         log("worker_done", w=w)
 
     # ---- liveness checks -------------------------------------------------------------------------
-    orig_alive, orig_exited = R.one_is_alive, R.all_exited
+    # the liveness helpers are optional hook points (a refactoring may rename them): without them the
+    # parent-side delay / forced-window plans lose a suspension point, the oracles do not depend on them
+    orig_alive, orig_exited = getattr(R, "one_is_alive", None), getattr(R, "all_exited", None)
     nalive = [0]
 
     def one_is_alive_w(processes):
@@ -223,8 +225,14 @@ def install(plan):
 
     R.wfa_alignment = wfa_wrapper
     R.mp = MPShim
-    R.one_is_alive = one_is_alive_w
-    R.all_exited = all_exited_w
+    if orig_alive is not None:
+        R.one_is_alive = one_is_alive_w
+    else:
+        log("hook_missing", name="one_is_alive")
+    if orig_exited is not None:
+        R.all_exited = all_exited_w
+    else:
+        log("hook_missing", name="all_exited")
 
     # ---- local-state probe: trace specification (get_ok process)* -------------------------------
     def at_process(frame):
